@@ -191,6 +191,9 @@ def _kw_cycle(i, seed, **base):
     kw.setdefault("evse_kinds", [r.choice(KINDS) for _ in range(3)])
     kw.setdefault("store_hist", bool(i % 3))
     kw.setdefault("est_seed", seed * 31 + i)
+    # registration order of the stations (identity / reversed / shuffled): spec-irrelevant everywhere, and after a
+    # JSON round trip the loaded network must still pair every station with its own rows (C09)
+    kw.setdefault("st_perm", [None, "rev", "shuffle"][(i // 2) % 3])
     return kw
 
 
